@@ -91,6 +91,8 @@ def check_case(idx, name, T, v, tier, R, others):
                 continue
             if decname != 'ber' and form != decname:
                 continue
+            if decname == 'der' and 'any_nonder' in feats:
+                continue      # an ANY value that is not itself DER is not a DER value
             tails = TAILS + (others[idx % len(others)],) if others else TAILS
             for t in tails:
                 R.evaluations += 1
@@ -122,6 +124,8 @@ def check_case(idx, name, T, v, tier, R, others):
             continue
         for decname in ('ber', 'der'):
             if not all(accepts(decname, f) for f, _, _ in seq):
+                continue
+            if decname == 'der' and 'any_nonder' in feats:
                 continue
             stream = b''.join(d for _, _, d in seq)
             R.evaluations += 1
